@@ -1447,7 +1447,6 @@ Section Striping.
       - exists (fst goal mod L). split; auto. apply Nat.mod_upper_bound. lia.
       - eexists; reflexivity.
       - rewrite A2, Hh. reflexivity.
-      - congruence.
       - rewrite A5. exact Hp.
       - intros v' B1 B2 B3 B4 B5. apply safe_oret. unfold Qreloc, same_rest. split; [exact Hr2|]. repeat split; congruence. }
     cbn [Conc.safe].
@@ -1471,7 +1470,7 @@ Section Striping.
     (* the victim x; try to take its locks *)
     assert (Hxin : In x (T g tb b)) by (rewrite Eold; now left).
     assert (Hpx : hsel (hashes cf (key_of x)) tb mod S (v_mask v1) = b) by (rewrite <- Hm1; apply (c_placed Hc tb b x Htb Hxin)).
-    assert (Hvr : v_reg v1 tb b = x :: rest) by (rewrite <- Hreg; exact Eold).
+    assert (Hvr : v_reg v1 tb b = x :: rest) by (symmetry; exact Hreg).
     assert (Hau1 : auth v1 tb b).
     { split; [exists (fst goal mod L); rewrite A2; right; now left|]. left. rewrite A2, Hbl.
       destruct tb as [|[|tb]]; [right; now left|now left|lia]. }
@@ -1521,7 +1520,7 @@ Section Striping.
     destruct (Nat.eqb (fst r) 3).
     - eapply Conc.safe_weaken; [|apply IH]; [|repeat split; try congruence; rewrite Q5; exact R4].
       intros [r'|] v'' Hq'; cbn in *; auto. destruct Hq' as (S0 & S1 & S2 & S3 & S4 & S5). unfold Qreloc, same_rest. split; auto. repeat split; congruence.
-    - apply safe_oret. unfold Qreloc, same_rest. split; auto. repeat split; auto.
+    - apply safe_oret. unfold Qreloc, same_rest. split; auto; repeat split; auto.
   Qed.
 
   Lemma safe_relocate t v H : rest_view v H ->
@@ -1538,4 +1537,548 @@ Section Striping.
       + apply safe_oret. repeat split; auto.
   Qed.
 
+
+  (** *** resize: re-insertion of the pending items *)
+  Definition pend_view (v v' : tview) (H : list lk) (r : list item) : Prop :=
+    v_op v' = v_op v /\ v_held v' = H /\ v_mic v' = MNone /\ v_fly v' = [] /\ v_pend v' = r.
+
+  (** a placement attempt of the first pending item *)
+  Lemma safe_place_pend {R} t tb x r limit (k : V -> prog R) (Q : R -> tview -> Prop) v :
+    tb < 2 -> v_pend v = x :: r -> v_fly v = [] -> v_mic v = MNone ->
+    (forall v' w, pend_view v v' (v_held v) r -> vn w = 1 -> safe t (k w) v' Q) ->
+    safe t (k (vnat 0)) v Q ->
+    safe t (Act (a_place (c_ord cf) tb (hsel (hashes cf (key_of x)) tb) x limit) k) v Q.
+  Proof.
+    intros Htb Hp Hf Hm Hyes Hno. cbn [Conc.safe]. intros g a tr Hi Hv. unfold view in Hv. pose proof Hi as [Hc _].
+    unfold a_place. fold (T g tb (bidx g (hsel (hashes cf (key_of x)) tb))).
+    change (bidx g (hsel (hashes cf (key_of x)) tb)) with (bk g (fst x) tb).
+    destruct (Nat.ltb (List.length (T g tb (bk g (fst x) tb))) limit); cbn [fst snd].
+    - assert (Hpa : pend a t = x :: r) by (unfold pend; now rewrite Hv).
+      assert (Hfa : fly a t = []) by (unfold fly; now rewrite Hv).
+      assert (Hpn : pend a t <> []) by (rewrite Hpa; discriminate).
+      pose proof (c_pend Hc t Hpn) as Hall.
+      destruct (c_pend2 Hc t) as [Hnd Hab]. rewrite Hpa in Hnd. unfold keys in Hnd. cbn [map] in Hnd. apply NoDup_cons_iff in Hnd. destruct Hnd as [Hnx Hndr].
+      assert (Habx : absent g x) by (apply Hab; rewrite Hpa; now left).
+      set (new := ins_item (c_ord cf) x (T g tb (bk g (fst x) tb))).
+      exists (setv a t (with_tab (a_view a t) tb (bk g (fst x) tb) new [] r)).
+      split; [apply (Inv_insert_move g a tr t _ x tb new [] r KLd o_mask true Hi Htb)|].
+      + split; [exists 0; apply Hall; exact Hnl|right; exact Hall].
+      + exact Habx.
+      + apply tab_view_with_tab.
+      + reflexivity.
+      + intros y. apply ins_item_in.
+      + apply ins_item_keys_nodup; [apply Habx; exact Htb|apply (c_nodup Hc)].
+      + intros y [].
+      + cbn. lia.
+      + intros y Hy. split; [rewrite Hpa; now right|]. intros E. apply Hnx. rewrite <- E. apply in_map. exact Hy.
+      + exact Hndr.
+      + intros _. exact Hpn.
+      + intros y. rewrite Hfa, Hpa. cbn [In]. intuition.
+      + split; [apply frame_setv|]. unfold view. rewrite setv_same, Hv. apply Hyes; [|reflexivity].
+        repeat split; auto.
+    - exists a. split; [eapply Inv_acc; eauto|]. split; [apply frame_refl|]. unfold view. rewrite Hv. exact Hno.
+  Qed.
+
+  Lemma probe_silent tb h k g :
+    rspin (fst (fst (a_probe tb h k g))) = rspin g /\ rown (fst (fst (a_probe tb h k g))) = rown g /\
+    mask (fst (fst (a_probe tb h k g))) = mask g /\ tabs (fst (fst (a_probe tb h k g))) = tabs g /\
+    exists kk o ok, snd (a_probe tb h k g) = [EvAcc kk o ok].
+  Proof. unfold a_probe. destruct (bkt_get k (get_bkt (tabs g) tb (bidx g h))); repeat split; do 3 eexists; reflexivity. Qed.
+
+  Lemma safe_reinsert t x r v H :
+    v_held v = H -> v_mic v = MNone -> v_fly v = [] -> v_pend v = x :: r -> (forall i, i < L -> In (0, 0, i) H) ->
+    safe t (reinsert cf (S t) x) v (optQ (fun _ v' => pend_view v v' H r)).
+  Proof.
+    intros Hh Hm Hf Hp Hall. unfold reinsert.
+    (* a successful placement followed by a relocation *)
+    assert (Hrel : forall v' tb goal, tb < 2 -> pend_view v v' H r ->
+              safe t (bindo (relocate cf relocate_limit (S t) tb goal) (fun _ => oret tt)) v' (optQ (fun _ v'' => pend_view v v'' H r))).
+    { intros v' tb goal Htb (P1 & P2 & P3 & P4 & P5). apply safe_bindo.
+      eapply Conc.safe_weaken; [|eapply (safe_relocate t v' H)]; [|repeat split; auto|exact Htb].
+      intros [ok|] v'' Hq; cbn in *; auto. destruct Hq as (S1 & S2 & S3 & S4 & S5). repeat split; congruence. }
+    assert (Hdone : forall v', pend_view v v' (v_held v) r -> safe t (oret tt) v' (optQ (fun _ v'' => pend_view v v'' H r))).
+    { intros v' P. apply safe_oret. rewrite Hh in P. exact P. }
+    (* the second pair of attempts (full probe sets), with the fall-through *)
+    assert (Hplace2 : safe t
+       (Act (a_place (c_ord cf) 0 (fst (hashes cf (key_of x))) x (c_ps cf)) (fun w0 =>
+          if Nat.eqb (vn w0) 1 then
+            bindo (relocate cf relocate_limit (S t) 0 (hashes cf (match vl w0 with y :: _ => key_of y | [] => key_of x end))) (fun _ => oret tt)
+          else
+            Act (a_place (c_ord cf) 1 (snd (hashes cf (key_of x))) x (c_ps cf)) (fun w1 =>
+              if Nat.eqb (vn w1) 1 then
+                bindo (relocate cf relocate_limit (S t) 1 (hashes cf (match vl w1 with y :: _ => key_of y | [] => key_of x end))) (fun _ => oret tt)
+              else Emit [EvCli "dropped" [Z.of_nat (key_of x)]] (oret tt)))) v (optQ (fun _ v'' => pend_view v v'' H r))).
+    { apply (safe_place_pend t 0 x r); [lia|exact Hp|exact Hf|exact Hm| |].
+      - intros v' w P E. rewrite E. cbn [Nat.eqb]. rewrite Hh in P. apply Hrel; auto.
+      - cbn [vn vnat Nat.eqb]. apply (safe_place_pend t 1 x r); [lia|exact Hp|exact Hf|exact Hm| |].
+        + intros v' w P E. rewrite E. cbn [Nat.eqb]. rewrite Hh in P. apply Hrel; auto.
+        + cbn [vn vnat Nat.eqb Conc.safe]. intros g a tr Hi Hv. unfold view in Hv.
+          eexists. split; [apply (Inv_drop g a tr t x r Hi); unfold pend; now rewrite Hv|]. split; [apply frame_setv|].
+          unfold view. rewrite setv_same. apply safe_oret. unfold held, mic, fly. rewrite Hv. repeat split; auto. }
+    assert (Hplace1 : safe t
+       (Act (a_place (c_ord cf) 0 (fst (hashes cf (key_of x))) x (c_th cf)) (fun v0 =>
+          if Nat.eqb (vn v0) 1 then oret tt
+          else Act (a_place (c_ord cf) 1 (snd (hashes cf (key_of x))) x (c_th cf)) (fun v1 => if Nat.eqb (vn v1) 1 then oret tt else
+            Act (a_place (c_ord cf) 0 (fst (hashes cf (key_of x))) x (c_ps cf)) (fun w0 =>
+          if Nat.eqb (vn w0) 1 then
+            bindo (relocate cf relocate_limit (S t) 0 (hashes cf (match vl w0 with y :: _ => key_of y | [] => key_of x end))) (fun _ => oret tt)
+          else
+            Act (a_place (c_ord cf) 1 (snd (hashes cf (key_of x))) x (c_ps cf)) (fun w1 =>
+              if Nat.eqb (vn w1) 1 then
+                bindo (relocate cf relocate_limit (S t) 1 (hashes cf (match vl w1 with y :: _ => key_of y | [] => key_of x end))) (fun _ => oret tt)
+              else Emit [EvCli "dropped" [Z.of_nat (key_of x)]] (oret tt)))))) v (optQ (fun _ v'' => pend_view v v'' H r))).
+    { apply (safe_place_pend t 0 x r); [lia|exact Hp|exact Hf|exact Hm| |].
+      - intros v' w P E. rewrite E. cbn [Nat.eqb]. apply Hdone; auto.
+      - cbn [vn vnat Nat.eqb]. apply (safe_place_pend t 1 x r); [lia|exact Hp|exact Hf|exact Hm| |].
+        + intros v' w P E. rewrite E. cbn [Nat.eqb]. apply Hdone; auto.
+        + cbn [vn vnat Nat.eqb]. exact Hplace2. }
+    apply safe_silent; [intros g; apply probe_silent|]. intros g a tr _ _.
+    destruct (Nat.eqb (vn (snd (fst (a_probe 0 (fst (hashes cf (key_of x))) (key_of x) g)))) 1); [exact Hplace1|].
+    apply safe_silent; [intros g'; apply probe_silent|]. intros g' a' tr' _ _. exact Hplace1.
+  Qed.
+
+  Lemma safe_reinsert_all t H : (forall i, i < L -> In (0, 0, i) H) ->
+    forall xs v, v_held v = H -> v_mic v = MNone -> v_fly v = [] -> v_pend v = xs ->
+    safe t (reinsert_all cf (S t) xs) v (optQ (fun _ v' => pend_view v v' H [])).
+  Proof.
+    intros Hall xs. induction xs as [|x r IH]; intros v Hh Hm Hf Hp; cbn [reinsert_all].
+    - apply safe_oret. repeat split; auto.
+    - apply safe_bindo. eapply Conc.safe_weaken; [|eapply safe_reinsert; eauto].
+      intros [u|] v' Hq; cbn in *; auto. destruct Hq as (P1 & P2 & P3 & P4 & P5).
+      eapply Conc.safe_weaken; [|apply IH; auto].
+      intros [u'|] v'' Hq; cbn in *; auto. destruct Hq as (S1 & S2 & S3 & S4 & S5). repeat split; congruence.
+  Qed.
+
+  (** unlock_all: the thread holds exactly the table-0 locks i .. L-1, each once *)
+  Definition ind0 (i : nat) (l : lk) : nat :=
+    match l with (0, 0, j) => if (Nat.leb i j && Nat.ltb j L)%bool then 1 else 0 | _ => 0 end.
+
+  Lemma cnt_zero_nil (H : list lk) : (forall l, cnt H l = 0) -> H = [].
+  Proof. intros E. destruct H as [|l H]; auto. specialize (E l). rewrite cnt_cons_same in E. lia. Qed.
+
+  Lemma safe_unlock_all t (Q : tview -> Prop) : forall n i v, i + n = L -> v_mic v = MNone -> v_fly v = [] -> v_pend v = [] ->
+    (forall l, cnt (v_held v) l = ind0 i l) ->
+    (forall v', v_op v' = v_op v -> v_held v' = [] -> v_mic v' = MNone -> v_fly v' = [] -> v_pend v' = [] -> Q v') ->
+    safe t (unlock_all 0 n i) v (fun _ => Q).
+  Proof.
+    induction n as [|n IH]; intros i v Hn Hm Hf Hp Hc HQ; cbn [unlock_all].
+    - apply safe_ret. apply HQ; auto. apply cnt_zero_nil. intros l. rewrite Hc. unfold ind0.
+      destruct l as [[gg tb] j]. destruct gg; auto. destruct tb; auto.
+      destruct (Nat.leb_spec i j); destruct (Nat.ltb_spec j L); cbn; lia.
+    - assert (Hci : cnt (v_held v) (0, 0, i) = 1).
+      { rewrite Hc. unfold ind0. destruct (Nat.leb_spec i i); destruct (Nat.ltb_spec i L); cbn; lia. }
+      apply safe_thenu. apply safe_r_unlock; auto.
+      + apply in_cnt. lia.
+      + intros _. split; [rewrite Hf; intros x []|rewrite Hp; congruence].
+      + apply IH; cbn [vrel v_op v_held v_mic v_fly v_pend]; auto; [lia|].
+        intros l. destruct (lk_dec l (0, 0, i)) as [->|Hne].
+        * rewrite cnt_rem1_same, Hci. unfold ind0. destruct (Nat.leb_spec (S i) i); cbn; lia.
+        * rewrite cnt_rem1_other, Hc by auto. unfold ind0. destruct l as [[gg tb] j]. destruct gg; auto. destruct tb; auto.
+          assert (j <> i) by congruence.
+          destruct (Nat.leb_spec (S i) j); destruct (Nat.leb_spec i j); destruct (Nat.ltb_spec j L); cbn; lia.
+  Qed.
+
+  Definition quiet (v v' : tview) : Prop :=
+    v_op v' = v_op v /\ v_held v' = [] /\ v_mic v' = MNone /\ v_fly v' = [] /\ v_pend v' = [].
+
+  Lemma safe_resize t v : v_held v = [] -> v_mic v = MNone -> v_fly v = [] -> v_pend v = [] ->
+    safe t (resize cf (S t)) v (optQ (fun _ v' => quiet v v')).
+  Proof.
+    intros Hh Hm Hf Hp. unfold resize. apply safe_silent; [silent|]. intros g0 a0 tr0 _ _. cbn [a_mask_ld fst snd vn vnat].
+    generalize (S (mask g0)) as nold. clear g0 a0 tr0. intros nold.
+    apply safe_bindo. rewrite Hpol. cbn [resize_lock resize_unlock policy_resize]. apply safe_bindo.
+    apply safe_lock_all; auto. intros v1 A1 A2 A3 A4 A5 A6 A7. cbv beta. apply safe_oret. cbv beta. cbn [fst snd].
+    assert (Hcnt : forall l, cnt (v_held v1) l = ind0 0 l) by (intros l; rewrite A7, Hh; reflexivity).
+    assert (Hall : forall i, i < L -> In (0, 0, i) (v_held v1)) by (intros i Hi; apply A6; lia).
+    assert (Hexit : forall vv, v_op vv = v_op v -> v_held vv = v_held v1 -> v_mic vv = MNone -> v_fly vv = [] -> v_pend vv = [] ->
+              safe t (thenu (unlock_all 0 L 0) (oret tt)) vv (optQ (fun _ v' => quiet v v'))).
+    { intros vv B1 B2 B3 B4 B5. apply safe_thenu. apply (safe_unlock_all t _ L 0 vv); auto.
+      - intros l. rewrite B2. apply Hcnt.
+      - intros v' C1 C2 C3 C4 C5. apply safe_oret. repeat split; auto. congruence. }
+    cbn [Conc.safe]. intros g a tr Hi Hv. unfold view in Hv. pose proof Hi as [Hc _].
+    assert (H0 : has0 (a_view a t)) by (exists 0; rewrite Hv; apply Hall; exact Hnl).
+    assert (Hmk : mask g = v_mask v1) by (rewrite <- Hv; apply (c_mask Hc t H0)).
+    exists a. split; [eapply Inv_acc; eauto|]. split; [apply frame_refl|]. unfold view. rewrite Hv. cbn [a_mask_ld fst snd vn vnat].
+    destruct (Nat.eqb_spec (S (mask g)) nold) as [En|En]; [|apply Hexit; congruence].
+    apply safe_bindo. apply safe_oret. rewrite Hmk in En.
+    clear g a tr Hi Hv Hc H0 Hmk. cbn [Conc.safe]. intros g a tr Hi Hv. unfold view in Hv. pose proof Hi as [Hc _].
+    assert (H0 : has0 (a_view a t)) by (exists 0; rewrite Hv; apply Hall; exact Hnl).
+    assert (Hmk2 : mask g = v_mask v1) by (rewrite <- Hv; apply (c_mask Hc t H0)).
+    subst nold. rewrite <- Hmk2.
+    set (n := 2 * S (mask g)).
+    set (v2 := mkTV (v_op v1) (v_held v1) MNone (n - 1) (fun _ _ => []) [] (all_items g)).
+    exists (setv a t v2). split; [|split; [apply frame_setv|]].
+    - apply (Inv_alloc g a tr t n v2 Hi); unfold v2; cbn [v_op v_held v_mic v_mask v_reg v_fly v_pend]; auto; unfold fly, pend, held, mic; rewrite ?Hv; auto; try congruence.
+    - unfold view. rewrite setv_same. unfold a_mask_st_alloc. cbn [fst snd vl]. fold (all_items g).
+      apply safe_bindo. eapply Conc.safe_weaken; [|apply (safe_reinsert_all t (v_held v1) Hall (all_items g) v2); reflexivity].
+      intros [u|] v3 Hq; cbn in *; auto. destruct Hq as (P1 & P2 & P3 & P4 & P5).
+      apply Hexit; auto. unfold v2 in P1. cbn in P1. congruence.
+  Qed.
+
+
+  (** *** insert / update *)
+  Definition fin_view (op : status ISet) (v' : tview) : Prop :=
+    v_op v' = op /\ v_held v' = [] /\ v_mic v' = MNone /\ v_fly v' = [] /\ v_pend v' = [].
+
+  (** a placement attempt of the new item inside the critical section of its key: the linearization point *)
+  Lemma safe_place_lp {R} t k tb (o : iop) (r : res) limit (kont : V -> prog R) (Q : R -> tview -> Prop) v :
+    csview v k -> tb < 2 -> vlookup v k = None -> v_op v = Pending (o : Op ISet) ->
+    (forall s, khas k s = false -> istep s o = ((k, t) :: s, r)) ->
+    (forall v' w, csview v' k -> v_held v' = v_held v -> v_op v' = Linearized (o : Op ISet) (r : Res ISet) -> vn w = 1 -> safe t (kont w) v' Q) ->
+    safe t (kont (vnat 0)) v Q ->
+    safe t (Act (a_place (c_ord cf) tb (hsel (hashes cf k) tb) (k, t) limit) kont) v Q.
+  Proof.
+    intros Hcs Htb Hvl Hop Hstep Hyes Hno. cbn [Conc.safe]. intros g a tr Hi Hv. unfold view in Hv. pose proof Hi as [Hc _].
+    assert (Hcs' : csview (a_view a t) k) by now rewrite Hv.
+    destruct (view_facts g a tr t k Hi Hcs') as [Hb Hl]. rewrite Hv in Hb, Hl.
+    assert (Hlk : lookup g k = None) by congruence.
+    unfold a_place. fold (T g tb (bidx g (hsel (hashes cf k) tb))). change (bidx g (hsel (hashes cf k) tb)) with (bk g k tb).
+    destruct (Nat.ltb (List.length (T g tb (bk g k tb))) limit); cbn [fst snd].
+    - set (new := ins_item (c_ord cf) (k, t) (T g tb (bk g k tb))).
+      set (v2 := with_op (with_tab v tb (bk g k tb) new [] []) (Linearized (o : Op ISet) (r : Res ISet))).
+      pose proof Hcs as (F0 & F1 & F2 & F3 & F4).
+      exists (seta (setv a t v2) (a_atr a ++ [ALin t])). split; [|split].
+      + apply (Inv_lp_insert g a tr t v2 k tb new o r KLd o_mask true Hi); auto.
+        * eapply in_cs_of_view; eauto.
+        * now rewrite Hv.
+        * rewrite Hv. unfold v2. repeat split; cbn; auto.
+        * intros y. apply ins_item_in.
+        * apply ins_item_keys_nodup; [apply (lookup_none g k Hlk tb Htb)|apply (c_nodup Hc)].
+      + intros t' Hne. unfold view. cbn [a_view seta]. now apply setv_other.
+      + unfold view. cbn [a_view seta]. rewrite setv_same. apply Hyes; [|reflexivity|reflexivity|reflexivity].
+        unfold v2. repeat split; cbn; auto.
+    - exists a. split; [eapply Inv_acc; eauto|]. split; [apply frame_refl|]. unfold view. rewrite Hv. exact Hno.
+  Qed.
+
+  Lemma safe_insert_places t k (o : iop) (rins : res) (r : nat * nat) (again : prog (option (nat * nat)))
+        (Q : (nat * nat) -> tview -> Prop) v1 :
+    csview v1 k -> v_held v1 = [l1k k; l0k k] -> vlookup v1 k = None -> v_op v1 = Pending (o : Op ISet) ->
+    (forall s, khas k s = false -> istep s o = ((k, t) :: s, rins)) ->
+    (forall v', fin_view (Linearized (o : Op ISet) (rins : Res ISet)) v' -> Q r v') ->
+    (forall v', fin_view (Pending (o : Op ISet)) v' -> safe t again v' (optQ Q)) ->
+    safe t
+      (Act (a_place (c_ord cf) 0 (fst (hashes cf k)) (k, t) (c_th cf)) (fun v0 =>
+         if Nat.eqb (vn v0) 1 then Act a_count_faa (fun _ => thenu (unlock2 (l0k k, l1k k)) (oret r)) else
+         Act (a_place (c_ord cf) 1 (snd (hashes cf k)) (k, t) (c_th cf)) (fun v1 =>
+           if Nat.eqb (vn v1) 1 then Act a_count_faa (fun _ => thenu (unlock2 (l0k k, l1k k)) (oret r)) else
+           Act (a_place (c_ord cf) 0 (fst (hashes cf k)) (k, t) (c_ps cf)) (fun w0 =>
+             if Nat.eqb (vn w0) 1 then
+               Act a_count_faa (fun _ => thenu (unlock2 (l0k k, l1k k))
+                 (bindo (relocate cf relocate_limit (S t) 0 (hashes cf (match vl w0 with y :: _ => key_of y | [] => k end))) (fun ok =>
+                    if ok then oret r else bindo (resize cf (S t)) (fun _ => oret r))))
+             else
+             Act (a_place (c_ord cf) 1 (snd (hashes cf k)) (k, t) (c_ps cf)) (fun w1 =>
+               if Nat.eqb (vn w1) 1 then
+                 Act a_count_faa (fun _ => thenu (unlock2 (l0k k, l1k k))
+                   (bindo (relocate cf relocate_limit (S t) 1 (hashes cf (match vl w1 with y :: _ => key_of y | [] => k end))) (fun ok =>
+                      if ok then oret r else bindo (resize cf (S t)) (fun _ => oret r))))
+               else thenu (unlock2 (l0k k, l1k k)) (bindo (resize cf (S t)) (fun _ => again)))))))
+      v1 (optQ Q).
+  Proof.
+    intros Hcs Hh Hvl Hop Hstep HQ Hagain.
+    (* after the linearization point: count, unlock, done *)
+    assert (Hdone : forall vv, csview vv k -> v_held vv = v_held v1 -> v_op vv = Linearized (o : Op ISet) (rins : Res ISet) ->
+              safe t (Act a_count_faa (fun _ => thenu (unlock2 (l0k k, l1k k)) (oret r))) vv (optQ Q)).
+    { intros vv (C0 & C1 & C2 & C3 & C4) Ch Co. apply safe_silent; [silent|]. intros g a tr _ _.
+      eapply safe_cs_exit with (H := []); eauto; [congruence|].
+      intros v' B1 B2 B3 B4 B5. apply safe_oret. apply HQ. repeat split; auto. congruence. }
+    (* ... or a relocation, perhaps a resize *)
+    assert (Hreloc : forall vv tb goal, tb < 2 -> csview vv k -> v_held vv = v_held v1 -> v_op vv = Linearized (o : Op ISet) (rins : Res ISet) ->
+              safe t (Act a_count_faa (fun _ => thenu (unlock2 (l0k k, l1k k))
+                 (bindo (relocate cf relocate_limit (S t) tb goal) (fun ok =>
+                    if ok then oret r else bindo (resize cf (S t)) (fun _ => oret r))))) vv (optQ Q)).
+    { intros vv tb goal Htb (C0 & C1 & C2 & C3 & C4) Ch Co. apply safe_silent; [silent|]. intros g a tr _ _.
+      eapply safe_cs_exit with (H := []); eauto; [congruence|].
+      intros v' B1 B2 B3 B4 B5. apply safe_bindo.
+      eapply Conc.safe_weaken; [|eapply (safe_relocate t v' [])]; [|repeat split; auto; rewrite B5; congruence|exact Htb].
+      intros [ok|] v'' Hq; cbn [optQ] in *; auto. destruct Hq as (S1 & S2 & S3 & S4 & S5).
+      assert (Hfv : fin_view (Linearized (o : Op ISet) (rins : Res ISet)) v'') by (repeat split; congruence).
+      destruct ok; [apply safe_oret; apply HQ; exact Hfv|].
+      destruct Hfv as (G1 & G2 & G3 & G4 & G5).
+      apply safe_bindo. eapply Conc.safe_weaken; [|apply safe_resize; auto].
+      intros [u|] v3 Hq; cbn [optQ] in *; auto. destruct Hq as (R1 & R2 & R3 & R4 & R5).
+      apply HQ. repeat split; auto. congruence. }
+    pose proof Hcs as (C0 & C1 & C2 & C3 & C4).
+    apply (safe_place_lp t k 0 o rins); auto.
+    { intros v' w P1 P2 P3 E. rewrite E. cbn [Nat.eqb]. apply Hdone; auto. }
+    cbn [vn vnat Nat.eqb]. apply (safe_place_lp t k 1 o rins); auto.
+    { intros v' w P1 P2 P3 E. rewrite E. cbn [Nat.eqb]. apply Hdone; auto. }
+    cbn [vn vnat Nat.eqb]. apply (safe_place_lp t k 0 o rins); auto.
+    { intros v' w P1 P2 P3 E. rewrite E. cbn [Nat.eqb]. apply Hreloc; auto. }
+    cbn [vn vnat Nat.eqb]. apply (safe_place_lp t k 1 o rins); auto.
+    { intros v' w P1 P2 P3 E. rewrite E. cbn [Nat.eqb]. apply Hreloc; auto. }
+    cbn [vn vnat Nat.eqb].
+    eapply safe_cs_exit with (H := []); eauto.
+    intros v' B1 B2 B3 B4 B5. apply safe_bindo. eapply Conc.safe_weaken; [|apply safe_resize; auto].
+    intros [u|] v3 Hq; cbn [optQ] in *; auto. destruct Hq as (R1 & R2 & R3 & R4 & R5).
+    apply Hagain. repeat split; auto. congruence.
+  Qed.
+
+  Definition iop_upd (upd : option bool) (k t : nat) : iop :=
+    match upd with None => IInsert k t | Some al => IUpdate k t al end.
+  Definition res_upd (upd : option bool) (r : nat * nat) : res :=
+    match upd with None => RBool (n2b (fst r)) | Some _ => RPair (n2b (fst r)) (n2b (snd r)) end.
+
+  Lemma safe_do_insert t k upd : forall fuel v,
+    fin_view (Pending (iop_upd upd k t : Op ISet)) v ->
+    safe t (do_insert cf fuel (S t) upd (k, t)) v
+      (optQ (fun r v' => fin_view (Linearized (iop_upd upd k t : Op ISet) (res_upd upd r : Res ISet)) v')).
+  Proof.
+    induction fuel as [|f IH]; intros v (Hop & Hh & Hm & Hf & Hp); cbn [do_insert]; [exact I|].
+    set (o := iop_upd upd k t) in *.
+    apply safe_bindo. apply safe_cell_lock; auto.
+    intros v1 A1 A2 A3 A4 A5 _. cbn [key_of fst] in *. fold (l0k k) (l1k k) in *. rewrite contains_is_gen.
+    assert (Hcs : csview v1 k).
+    { split; [rewrite A2; right; now left|]. split; [rewrite A2; now left|]. split; auto. split; congruence. }
+    rewrite Hh in A2.
+    set (Q := fun (r : nat * nat) v' => fin_view (Linearized (o : Op ISet) (res_upd upd r : Res ISet)) v').
+    assert (Hex : forall r vv, csview vv k -> v_held vv = v_held v1 -> v_op vv = Linearized (o : Op ISet) (res_upd upd r : Res ISet) ->
+              safe t (thenu (unlock2 (l0k k, l1k k)) (oret r)) vv (optQ Q)).
+    { intros r vv (C0 & C1 & C2 & C3 & C4) Ch Co. eapply safe_cs_exit with (H := []); eauto; [rewrite Ch; exact A2|].
+      intros v' B1 B2 B3 B4 B5. apply safe_oret. unfold Q. repeat split; auto. congruence. }
+    set (rfound := match upd with None => RBool false | Some _ => RPair true false end).
+    set (dnone := match upd with Some false => Some (RPair false false) | _ => None end).
+    apply (safe_contains t k o (fun _ => Some rfound) dnone _ _ v1 Hcs); [congruence| | | |].
+    - intros x r E s Hs. inversion E; subst r. unfold o, rfound. destruct upd as [al|]; cbn; rewrite khas_kget, Hs; reflexivity.
+    - intros r E s Hs. unfold dnone in E. destruct upd as [[|]|]; try discriminate. inversion E; subst r.
+      unfold o. cbn. rewrite khas_kget, Hs. reflexivity.
+    - intros tb x Htb _ _. apply Nat.ltb_lt in Htb. rewrite Htb. cbn [lin_view].
+      apply Hex; [exact Hcs|reflexivity|]. cbn [with_op v_op]. unfold rfound, res_upd. destruct upd; reflexivity.
+    - intros Hvl. cbn [Nat.ltb Nat.leb].
+      assert (Hpl : forall u rins, dnone = None -> res_upd upd (1, u) = rins -> (forall s, khas k s = false -> istep s o = ((k, t) :: s, rins)) ->
+                safe t
+      (Act (a_place (c_ord cf) 0 (fst (hashes cf k)) (k, t) (c_th cf)) (fun v0 =>
+         if Nat.eqb (vn v0) 1 then Act a_count_faa (fun _ => thenu (unlock2 (l0k k, l1k k)) (oret (1, u))) else
+         Act (a_place (c_ord cf) 1 (snd (hashes cf k)) (k, t) (c_th cf)) (fun v1 =>
+           if Nat.eqb (vn v1) 1 then Act a_count_faa (fun _ => thenu (unlock2 (l0k k, l1k k)) (oret (1, u))) else
+           Act (a_place (c_ord cf) 0 (fst (hashes cf k)) (k, t) (c_ps cf)) (fun w0 =>
+             if Nat.eqb (vn w0) 1 then
+               Act a_count_faa (fun _ => thenu (unlock2 (l0k k, l1k k))
+                 (bindo (relocate cf relocate_limit (S t) 0 (hashes cf (match vl w0 with y :: _ => key_of y | [] => k end))) (fun ok =>
+                    if ok then oret (1, u) else bindo (resize cf (S t)) (fun _ => oret (1, u)))))
+             else
+             Act (a_place (c_ord cf) 1 (snd (hashes cf k)) (k, t) (c_ps cf)) (fun w1 =>
+               if Nat.eqb (vn w1) 1 then
+                 Act a_count_faa (fun _ => thenu (unlock2 (l0k k, l1k k))
+                   (bindo (relocate cf relocate_limit (S t) 1 (hashes cf (match vl w1 with y :: _ => key_of y | [] => k end))) (fun ok =>
+                      if ok then oret (1, u) else bindo (resize cf (S t)) (fun _ => oret (1, u)))))
+               else thenu (unlock2 (l0k k, l1k k)) (bindo (resize cf (S t)) (fun _ => do_insert cf f (S t) upd (k, t))))))))
+                (lin_view v1 o dnone) (optQ Q)).
+      { intros u rins Hd Hr Hst. rewrite Hd. cbn [lin_view].
+        apply (safe_insert_places t k o rins (1, u) _ Q v1 Hcs A2 Hvl); [congruence|exact Hst| |].
+        - intros v' (G1 & G2 & G3 & G4 & G5). unfold Q. rewrite Hr. repeat split; auto.
+        - intros v' Hfv. apply IH. exact Hfv. }
+      destruct upd as [[|]|].
+      + apply (Hpl 1 (RPair true true)); [reflexivity|reflexivity|]. intros s Hs. unfold o. cbn. now rewrite Hs.
+      + cbn [lin_view dnone]. apply Hex; [exact Hcs|reflexivity|reflexivity].
+      + apply (Hpl 0 (RBool true)); [reflexivity|reflexivity|]. intros s Hs. unfold o. cbn. now rewrite Hs.
+  Qed.
+
+
+  (** *** a whole operation, a thread *)
+  Lemma safe_run_op t o v : fin_view Lin.Idle v -> safe t (run_op cf t o) v (optQ (fun _ v' => fin_view Lin.Idle v')).
+  Proof.
+    intros (Hop & Hh & Hm & Hf & Hp). unfold run_op.
+    set (c := nth 0 o 0). set (k := nth 1 o 0). set (x := nth 2 o 0). set (y := nth 3 o 0).
+    destruct (op_of_code c y) as [co|] eqn:Hoc; [|apply safe_oret; repeat split; auto].
+    cbn [Conc.safe]. intros g a tr Hi Hv. unfold view in Hv.
+    eexists. split; [apply (Inv_cli g a tr t (Pending (iop_of_cop co k t : Op ISet)) "inv" _ (a_atr a ++ [AInv t (iop_of_cop co k t : Op ISet)]) Hi)|].
+    { intros s st H1 H3 H2. split.
+      - eapply lp_ext; [exact H1|]. cbn [lp_step]. rewrite H3, Hv, Hop. reflexivity.
+      - rewrite erase_app, H2, (hist_inv tr t c k x y (iop_of_cop co k t) (iop_of_ccode c k t y co Hoc)). reflexivity. }
+    split; [intros t' Hne; unfold view; cbn [a_view seta]; now apply setv_other|].
+    unfold view. cbn [a_view seta]. rewrite setv_same, Hv. clear g a tr Hi Hv.
+    set (v1 := with_op v (Pending (iop_of_cop co k t : Op ISet))).
+    assert (Hfin : forall r v', fin_view (Linearized (iop_of_cop co k t : Op ISet) (res_of_cop co (fst r) (snd r) : Res ISet)) v' ->
+              safe t (Emit [EvCli "ret" (zl [c; fst r; r2_of_code c k (fst r) (snd r)])] (oret tt)) v' (optQ (fun _ v'' => fin_view Lin.Idle v''))).
+    { intros r v' (G1 & G2 & G3 & G4 & G5). eapply Conc.safe_weaken; [|eapply (safe_fin t c k y co (fst r) (snd r) v' Hoc); exact G1].
+      intros [u|] l' Hl; cbn [optQ] in *; auto. subst l'. repeat split; auto. }
+    assert (Hidle : forall u v', idle_view v1 v' -> optQ (fun (_ : unit) v'' => fin_view Lin.Idle v'') u v').
+    { intros [u|] v' Hq; cbn [optQ]; auto. destruct Hq as (I1 & I2 & I3 & I4 & I5). repeat split; auto. rewrite I2. exact Hh. }
+    destruct co as [|allow| | |].
+    - apply safe_bindo. eapply Conc.safe_weaken; [|apply (safe_do_insert t k None (c_fuel cf) v1); repeat split; auto].
+      intros [r|] v' Hq; cbn [optQ] in *; [apply Hfin; exact Hq|exact I].
+    - apply safe_bindo. eapply Conc.safe_weaken; [|apply (safe_do_insert t k (Some allow) (c_fuel cf) v1); repeat split; auto].
+      intros [r|] v' Hq; cbn [optQ] in *; [apply Hfin; exact Hq|exact I].
+    - eapply Conc.safe_weaken; [|apply (safe_erase t c k y CUnlink v1 Hoc); auto].
+      intros [u|] v' Hq; [apply (Hidle (Some u)); exact Hq|exact I].
+    - eapply Conc.safe_weaken; [|apply (safe_erase t c k y CErase v1 Hoc); auto].
+      intros [u|] v' Hq; [apply (Hidle (Some u)); exact Hq|exact I].
+    - eapply Conc.safe_weaken; [|apply (safe_find t c k y v1 Hoc); auto].
+      intros [u|] v' Hq; [apply (Hidle (Some u)); exact Hq|exact I].
+  Qed.
+
+  Lemma safe_run_ops t os : forall v, fin_view Lin.Idle v -> safe t (run_ops cf t os) v (fun _ _ => True).
+  Proof.
+    induction os as [|o r IH]; intros v Hv; cbn [run_ops]; [exact I|].
+    apply Conc.safe_bind. eapply Conc.safe_weaken; [|apply safe_run_op; auto].
+    intros [u|] v' H; cbn [optQ] in H.
+    - apply IH; auto.
+    - cbn [Conc.safe]. intros g a tr Hi Hv'. exists a. split; [now apply Inv_oof|]. split; [apply frame_refl|exact I].
+  Qed.
+
+  Lemma safe_thread t os v : fin_view Lin.Idle v -> safe t (thread_prog cf t os) v (@Conc.QTrue tview).
+  Proof.
+    intros Hv. unfold thread_prog. apply safe_silent; [silent|].
+    intros g a tr _ _. eapply Conc.safe_weaken; [|apply safe_run_ops; auto]. intros; exact I.
+  Qed.
+
+
+  (** ** the initial configuration *)
+  Definition a0 : Aux := mkAux (fun _ => mkTV Lin.Idle [] MNone 0 (fun _ _ => []) [] []) [].
+
+  Lemma nth_error_mapi {A B} (f : nat -> A -> B) : forall l i t, nth_error (mapi f i l) t = option_map (f (i + t)) (nth_error l t).
+  Proof.
+    induction l as [|x r IH]; intros i [|t]; cbn; auto.
+    - now rewrite Nat.add_0_r.
+    - rewrite IH. now rewrite Nat.add_succ_r.
+  Qed.
+
+  Lemma init_T tb b : T (init cf) tb b = [].
+  Proof. unfold CuckooConcInv.T, init. cbn [tabs]. apply get_bkt_empty. Qed.
+
+  Lemma init_ok ths : Conc.cfg_ok view Inv (init_cfg cf ths).
+  Proof.
+    exists a0. split.
+    - cbn [init_cfg Conc.shared Conc.trace]. split.
+      + constructor; unfold held, mic, fly, pend; cbn [a0 a_view v_held v_mic v_fly v_pend v_mask v_reg].
+        * intros l H. exfalso. apply H. reflexivity.
+        * intros t l [].
+        * intros t t' l [].
+        * intros l. now left.
+        * intros t l [].
+        * intros t l [E|E]; discriminate.
+        * intros t gg tb i [].
+        * intros t (i & []).
+        * intros t tb b _ [(i & []) _].
+        * cbn [init tabs mask List.length nth]. split; [reflexivity|]. split.
+          -- intros tb Htb. destruct tb as [|[|tb]]; [| |lia]; cbn [nth]; rewrite repeat_length; lia.
+          -- exists 1. split; lia.
+        * intros tb b x _ H. rewrite init_T in H. destruct H.
+        * intros tb b. rewrite init_T. constructor.
+        * intros b b' x y H. rewrite init_T in H. destruct H.
+        * intros t x [].
+        * intros t. cbn. lia.
+        * intros t H. exfalso. apply H. reflexivity.
+        * intros t. split; [constructor|intros x []].
+      + right. exists [], (fun _ => Lin.Idle). cbn [a0 a_atr a_view v_op]. split; [reflexivity|]. split; [reflexivity|]. split; [reflexivity|].
+        split; [constructor|]. intros x. split; [intros []|].
+        intros [(tb & b & _ & H)|[(t & H)|(t & H)]]; [rewrite init_T in H; destruct H|destruct H|destruct H].
+    - intros t p Hp. cbn [init_cfg Conc.threads] in Hp. rewrite nth_error_mapi in Hp.
+      destruct (nth_error ths t) as [os|]; inversion Hp; subst. cbn [Nat.add].
+      apply safe_thread. repeat split.
+  Qed.
+
+  (** ** theorems *)
+
+  (** every concurrent history of the model in which resize() never fell through without re-inserting an item
+      (property C17's sequential defect, marked in the trace by the ghost event) is linearizable *)
+  Theorem cuckoo_striping_linearizable ths (c : Conc.config G V ev) :
+    Conc.reach (init_cfg cf ths) c -> ~ dropped (Conc.trace c) -> linearizable ISet (hist_of (Conc.trace c)).
+  Proof.
+    intros Hr Hnd. destruct (Conc.reach_Inv (init_ok ths) Hr) as (a & _ & [Hd|(s & st & H1 & H2 & _)]); [contradiction|].
+    rewrite <- H2. apply lp_valid_linearizable. eexists; eauto.
+  Qed.
+
+  (** no key is ever present twice (unconditionally): every probe set has distinct keys, an item is only in a probe
+      set its own hashes select, a key is never in both tables; so all the keys of the two tables are distinct *)
+  Theorem cuckoo_striping_nodup ths (c : Conc.config G V ev) :
+    Conc.reach (init_cfg cf ths) c ->
+    let g := Conc.shared c in
+    (forall tb b, NoDup (keys (T g tb b))) /\
+    (forall tb b x, tb < 2 -> In x (T g tb b) -> hsel (hashes cf (fst x)) tb mod S (mask g) = b) /\
+    (forall b b' x y, In x (T g 0 b) -> In y (T g 1 b') -> fst x <> fst y) /\
+    NoDup (keys (all_items g)).
+  Proof.
+    intros Hr g. destruct (Conc.reach_Inv (init_ok ths) Hr) as (a & Hc & _).
+    split; [apply (c_nodup Hc)|]. split; [apply (c_placed Hc)|]. split; [apply (c_cross Hc)|].
+    apply (all_items_nodup cf _ a Hc).
+  Qed.
+
+  (** the two cell locks of a key protect its two probe sets, also across a resize: there is an assignment [a] of
+      lock sets to the threads, consistent with the lock words, such that a thread that holds the locks of the two
+      stripes of a probe set (or all table-0 locks: the resizer) sees no step of another thread change the bucket
+      mask or that probe set *)
+  Theorem cuckoo_cell_locks_stable_thm ths (c : Conc.config G V ev) :
+    Conc.reach (init_cfg cf ths) c ->
+    exists a : Aux,
+      (forall l, rspin (Conc.shared c) l <> 0 <-> exists t, In l (held a t)) /\
+      (forall t t' l, In l (held a t) -> In l (held a t') -> t = t') /\
+      (forall h, (h mod S (mask (Conc.shared c))) mod L = h mod L) /\
+      (forall t' c', Conc.step_cfg c t' = Some c' ->
+         forall t tb b, t <> t' -> tb < 2 -> auth (a_view a t) tb b ->
+           mask (Conc.shared c') = mask (Conc.shared c) /\ T (Conc.shared c') tb b = T (Conc.shared c) tb b).
+  Proof.
+    intros Hr. pose proof (Conc.reach_inv (init_ok ths) Hr) as Hok.
+    pose proof Hok as (a & Hi & Hts). exists a. pose proof Hi as [Hc _].
+    split; [|split; [|split]].
+    - intros l. split; [apply (c_spin0 Hc)|]. intros (t & Hin). rewrite (c_spin Hc t l Hin). apply in_cnt in Hin. lia.
+    - apply (c_excl Hc).
+    - intros h. apply (stripe_mod cf _ a h Hc).
+    - intros t' c' Hs t tb b Hne Htb Hau.
+      unfold Conc.step_cfg in Hs.
+      destruct (nth_error (Conc.threads c) t') as [p|] eqn:Hp; [|discriminate].
+      unfold Conc.step_thread in Hs. destruct p as [r|es k|f k]; try discriminate.
+      pose proof (Hts t' _ Hp) as Hsafe. cbn [Conc.safe] in Hsafe.
+      destruct (Hsafe _ _ _ Hi eq_refl) as (a1 & H1 & H2 & H3).
+      destruct (f (Conc.shared c)) as [[g' v] es] eqn:Hf. cbn [fst snd] in *.
+      destruct (Conc.settle (k v)) as [es' p'] eqn:Hk.
+      inversion Hs; subst c'; clear Hs. cbn [Conc.shared].
+      destruct H1 as [Hc1 _].
+      assert (Hv : a_view a1 t = a_view a t) by (apply H2; exact Hne).
+      assert (Hau1 : auth (a_view a1 t) tb b) by now rewrite Hv.
+      split.
+      + destruct Hau as [H0 _]. rewrite (c_mask Hc1 t ltac:(rewrite Hv; exact H0)), (c_mask Hc t H0). now rewrite Hv.
+      + rewrite (c_reg Hc1 t tb b Htb Hau1), (c_reg Hc t tb b Htb Hau). now rewrite Hv.
+  Qed.
+
 End Striping.
+
+(** ** the statements for every mutex policy, and the part of them that is proved.
+
+    [cuckoo_linearizable_statement] / [cuckoo_nodup_statement] quantify over both policies.  Proved above: the
+    lock-striping policy (cuckoo::striping<>), for every schedule, any number of threads, any client programs,
+    including concurrent relocations and resizes.  Missing: the refinable policy (cuckoo::refinable<>), whose
+    acquire() / acquire_resize() owner protocol and lock-array replacement are in the model (Model/CuckooConc.v,
+    covered by step correspondence and by the lincheck'ed harness histories) but whose invariant — the combination
+    of [StripedConcRefInv] (owner word, generations of the lock arrays) with the nested reentrant locks of this file
+    — has not been carried through. *)
+Definition cuckoo_linearizable_statement : Prop :=
+  forall cf, 0 < c_nl cf ->
+  forall ths (c : Conc.config G V ev), Conc.reach (init_cfg cf ths) c ->
+    ~ dropped (Conc.trace c) -> linearizable ISet (hist_of (Conc.trace c)).
+
+Definition cuckoo_nodup_statement : Prop :=
+  forall cf, 0 < c_nl cf ->
+  forall ths (c : Conc.config G V ev), Conc.reach (init_cfg cf ths) c ->
+    let g := Conc.shared c in
+    (forall tb b, NoDup (keys (CuckooConcInv.T g tb b))) /\
+    (forall tb b x, tb < 2 -> In x (CuckooConcInv.T g tb b) -> hsel (hashes cf (fst x)) tb mod S (mask g) = b) /\
+    (forall b b' x y, In x (CuckooConcInv.T g 0 b) -> In y (CuckooConcInv.T g 1 b') -> fst x <> fst y) /\
+    NoDup (keys (all_items g)).
+
+Theorem cuckoo_linearizable_partial :
+  forall cf, c_pol cf = Striping -> 0 < c_nl cf ->
+  forall ths (c : Conc.config G V ev), Conc.reach (init_cfg cf ths) c ->
+    ~ dropped (Conc.trace c) -> linearizable ISet (hist_of (Conc.trace c)).
+Proof. exact cuckoo_striping_linearizable. Qed.
+
+Theorem cuckoo_nodup_partial :
+  forall cf, c_pol cf = Striping -> 0 < c_nl cf ->
+  forall ths (c : Conc.config G V ev), Conc.reach (init_cfg cf ths) c ->
+    let g := Conc.shared c in
+    (forall tb b, NoDup (keys (CuckooConcInv.T g tb b))) /\
+    (forall tb b x, tb < 2 -> In x (CuckooConcInv.T g tb b) -> hsel (hashes cf (fst x)) tb mod S (mask g) = b) /\
+    (forall b b' x y, In x (CuckooConcInv.T g 0 b) -> In y (CuckooConcInv.T g 1 b') -> fst x <> fst y) /\
+    NoDup (keys (all_items g)).
+Proof. exact cuckoo_striping_nodup. Qed.
+
+(** a decidable test for "no item was dropped" (for the examples) *)
+Definition is_drop (te : nat * ev) : bool :=
+  match snd te with EvCli n [_] => String.eqb n DroppedName.name | _ => false end.
+Lemma no_drop_events tr : existsb is_drop tr = false -> ~ dropped tr.
+Proof.
+  intros H (t & k & Hin).
+  assert (E : existsb is_drop tr = true) by (apply existsb_exists; eexists; split; [exact Hin|apply String.eqb_refl]).
+  congruence.
+Qed.
